@@ -66,28 +66,30 @@ pub fn decode(wire: &[u8]) -> Decoded {
         if line.len() + 1 > MAX_STRICT_SIZE_LINE {
             return done(data, Status::Gray { at: line_start, why: "size line longer than 100 bytes" }, complete);
         }
-        if line.last() != Some(&b'\r') {
-            // bare LF, or an empty line consisting of LF only
-            return done(data, Status::Gray { at: line_start, why: "size line ends with bare LF" }, complete);
-        }
-        let line = &line[..line.len() - 1];
-        if line.contains(&b'\r') {
-            // e.g. "3\r\r\n": lenient parsers trim it; the statement does not list it as malformed
-            return done(data, Status::Gray { at: line_start, why: "stray CR in size line" }, complete);
-        }
+        // A deviation is gray only if it is the ONLY thing wrong with the line: the size field
+        // itself must still be a plain hex number, otherwise the line is malformed whatever its
+        // line ending looks like.
+        let bare_lf = line.last() != Some(&b'\r');
+        let line = if bare_lf { line } else { &line[..line.len() - 1] };
         let (digits, ext) = match line.iter().position(|&b| b == b';') {
             Some(i) => (&line[..i], Some(&line[i + 1..])),
             None => (line, None),
         };
-        if digits.is_empty() {
+        let lenient_noise = |b: u8| matches!(b, b' ' | b'\t' | b'+' | 0x0b | 0x0c | b'\r') || b >= 0x80;
+        let core: Vec<u8> = digits.iter().copied().filter(|&b| !lenient_noise(b)).collect();
+        if core.is_empty() || !core.iter().all(|b| b.is_ascii_hexdigit()) {
             return done(data, Status::Malformed { at: line_start, state: State::SizeLine }, complete);
         }
-        if digits.iter().any(|b| matches!(b, b' ' | b'\t' | b'+' | 0x0b | 0x0c)) || digits.iter().any(|&b| b >= 0x80) {
+        if bare_lf {
+            return done(data, Status::Gray { at: line_start, why: "size line ends with bare LF" }, complete);
+        }
+        if line.contains(&b'\r') {
+            // e.g. "3\r\r\n": lenient parsers trim it; the statement does not list it as malformed
+            return done(data, Status::Gray { at: line_start, why: "stray CR in size line" }, complete);
+        }
+        if core.len() != digits.len() {
             // str::trim / from_str_radix leniencies (blanks, sign) and non-ASCII: not fixed by the statement
             return done(data, Status::Gray { at: line_start, why: "blank, sign or non-ASCII in chunk size" }, complete);
-        }
-        if !digits.iter().all(|b| b.is_ascii_hexdigit()) {
-            return done(data, Status::Malformed { at: line_start, state: State::SizeLine }, complete);
         }
         if let Some(ext) = ext {
             if !ext.iter().all(|&b| b == b'\t' || (0x20..0x7f).contains(&b)) {
@@ -172,6 +174,12 @@ mod tests {
         assert!(matches!(d.status, Status::Gray { why: "trailer section", .. }));
         let d = decode(b"g\r\n");
         assert!(matches!(d.status, Status::Malformed { .. }));
+        // garbage in the size field is malformed whatever the line ending looks like
+        assert!(matches!(decode(b"4X\nwiki\r\n0\r\n\r\n").status, Status::Malformed { .. }));
+        assert!(matches!(decode(b"4\rXwiki\r\n0\r\n\r\n").status, Status::Malformed { .. }));
+        assert!(matches!(decode(b"4\nwiki\r\n0\r\n\r\n").status, Status::Gray { .. }));
+        assert!(matches!(decode(b" 4\r\nwiki\r\n0\r\n\r\n").status, Status::Gray { .. }));
+        assert!(matches!(decode(b"\r\n").status, Status::Malformed { .. }));
         let d = decode(b"0\r\n\r");
         assert!(matches!(d.status, Status::Incomplete { state: State::Terminator }));
         let d = decode(b"");
